@@ -29,6 +29,19 @@ one `Write` (quotes and the trailing newline); an unserialisable value makes `En
 before anything is written.  `io.Copy` (used by `Stream`) is reduced to: one `Write` per
 non-empty chunk the reader returns, stop at the first write error.  Both reductions are
 validated by the correspondence run.
+
+Round 4 additions:
+
+* the serialising helpers `JSONP` (jsonPBlob: commits BEFORE serialising), `XML`/`XMLPretty`
+  (header write, then the encoder's single buffered write), `Render` (nothing happens unless
+  the renderer succeeded, then `HTMLBlob`), `File`/`FileFS`/`Attachment`/`Inline`
+  (Content-Disposition into the header map first, then `http.ServeContent` reduced to
+  "Content-Type if unset, `WriteHeader(200)`, one `Write` of the file, errors swallowed"),
+  `Response.Hijack` (touches nothing of the bookkeeping);
+* an underlying writer WITHOUT `http.Flusher` (`Raw.canFlush = false`): `Response.Flush`
+  commits first (F5) and then panics — the state after the panic is the committed state;
+* sequences of requests served on one recycled context: `reset` (response.reset + a fresh
+  writer and header map) and `runSeq`.
 -/
 namespace C06
 
@@ -51,9 +64,11 @@ structure Raw where
   sent : Option Nat := none     -- status actually sent (`none` = headers not out yet)
   sentCt : Nat := 0             -- Content-Type in the header map when the headers went out
   sentLoc : Bool := false       -- Location present in the header map when the headers went out
+  sentDisp : Nat := 0           -- Content-Disposition in the header map then (0 none, 1 attachment, 2 inline)
   body : Nat := 0               -- body bytes accepted so far
   flushes : Nat := 0
   cap : Nat                     -- total body bytes the writer accepts
+  canFlush : Bool := true       -- does the writer implement http.Flusher (reachable by ResponseController)?
 deriving DecidableEq, Repr, Inhabited
 
 /-- `echo.Response` + the two header-map entries the helpers touch + the writer + the trace -/
@@ -65,12 +80,14 @@ structure St where
   after : List Nat := []
   ct : Nat := 0                 -- Content-Type in the header map (0 = unset)
   loc : Bool := false           -- Location set in the header map
+  disp : Nat := 0               -- Content-Disposition in the header map (0 unset, 1 attachment, 2 inline)
   raw : Raw
   trace : List Ev := []
 deriving DecidableEq, Repr, Inhabited
 
 /-- `reset` leaves status 200; `NewResponse` (used by `Echo.NewContext`) leaves status 0 -/
-def init (status0 cap : Nat) : St := { status := status0, raw := { cap := cap } }
+def init (status0 cap : Nat) (canFlush : Bool := true) : St :=
+  { status := status0, raw := { cap := cap, canFlush := canFlush } }
 
 def emit (s : St) (es : List Ev) : St := { s with trace := s.trace ++ es }
 
@@ -78,7 +95,7 @@ def emit (s : St) (es : List Ev) : St := { s with trace := s.trace ++ es }
 
 /-- headers leave with status `c` and the current header map -/
 def rawSend (s : St) (c : Nat) : St :=
-  { s with raw := { s.raw with sent := some c, sentCt := s.ct, sentLoc := s.loc } }
+  { s with raw := { s.raw with sent := some c, sentCt := s.ct, sentLoc := s.loc, sentDisp := s.disp } }
 
 def rawWriteHeader (s : St) (c : Nat) : St :=
   let s := emit { s with raw := { s.raw with calls := s.raw.calls ++ [c] } } [.hdr c]
@@ -128,8 +145,13 @@ def write (s : St) (n : Nat) : St × Nat × Bool :=
   let s := emit s (s.after.map .runA)
   (s, acc, decide (acc < n))
 
-/-- `Response.Flush` (with the F5 repair) -/
-def flush (s : St) : St := rawFlush (ensureCommitted s)
+/-- `Response.Flush` (with the F5 repair): commit first; then
+    `http.NewResponseController(r.Writer).Flush()` — on a writer without `http.Flusher` that
+    returns `ErrNotSupported` and `Flush` panics, AFTER the commit: the state the recovering
+    caller sees is the committed one, the writer received no flush -/
+def flush (s : St) : St :=
+  let s := ensureCommitted s
+  if s.raw.canFlush then rawFlush s else s
 
 /-! ## context.go helpers -/
 
@@ -161,9 +183,16 @@ inductive Op where
   | flushFE                             -- `FlushError()` if the Response offers it (interface assertion), else Flush()
   | unwrap                              -- c.Response().Unwrap(): hands out the wrapped writer, touches nothing
   | copy (chunks : List Nat) (rerr : Bool)  -- io.Copy(c.Response(), reader without WriteTo)
+  -- round 4: the serialising helpers, Render, the file helpers, Hijack
+  | jsonp (c cb k : Nat) (ok : Bool)    -- c.JSONP(c, callback, v): `ok` = v serialisable (to k+3 bytes)
+  | xml (c k : Nat) (ok : Bool)         -- c.XML / c.XMLPretty(c, v): `ok` = v encodable (to k+17 bytes)
+  | render (c n : Nat) (ok : Bool)      -- c.Render: `ok` = a renderer is registered and produced n bytes
+  | file (found : Bool) (n disp ct : Nat) -- File/FileFS (disp 0), Attachment (1), Inline (2); ct by extension
+  | hijack                              -- c.Response().Hijack()
 deriving DecidableEq, Repr, Inhabited
 
 /-- content-type ids -/
+def ctHTML : Nat := 2
 def ctJSON : Nat := 3
 def ctJS : Nat := 4
 def ctXML : Nat := 5
@@ -180,7 +209,7 @@ deriving DecidableEq, Repr, Inhabited
 def step (s : St) : Op → St × Ret
   | .writeHeader c => (writeHeader s c, {})
   | .write n => let (s, acc, err) := write s n; (s, ⟨acc, err⟩)
-  | .flush => (flush s, {})
+  | .flush => (flush s, ⟨0, !s.raw.canFlush⟩)
   | .before h => (emit { s with before := s.before ++ [h] } [.regB h], {})
   | .after h => (emit { s with after := s.after ++ [h] } [.regA h], {})
   | .json c k ok =>
@@ -217,12 +246,49 @@ def step (s : St) : Op → St × Ret
   -- http.Flusher and lands in `Response.Flush`; io.Copy finds no io.ReaderFrom and runs its
   -- copy loop through `Response.Write` (one Write per non-empty chunk, stop at the first error),
   -- whether or not the UNDERLYING writer implements io.ReaderFrom.
-  | .flushRC => (flush s, {})
-  | .flushFE => (flush s, {})
+  | .flushRC => (flush s, ⟨0, !s.raw.canFlush⟩)
+  | .flushFE => (flush s, ⟨0, !s.raw.canFlush⟩)
   | .unwrap => (s, {})
   | .copy chunks rerr =>
     let (s, err) := writes s (chunks.filter (· ≠ 0))
     (s, ⟨0, err || rerr⟩)
+  -- jsonPBlob: content type, WriteHeader, `callback(`, THEN Serialize (one write of k+3 bytes
+  -- or an error before anything is written), `);` — an unserialisable value leaves a committed
+  -- response with `callback(` written
+  | .jsonp c cb k ok =>
+    let s := writeCT s ctJS
+    let s := writeHeader s c
+    let (s, err) := writes s (if ok then [cb + 1, k + 3, 2] else [cb + 1])
+    (s, ⟨0, err || !ok⟩)
+  -- xml: content type, WriteHeader, xml.Header, then Encoder.Encode: one buffered write of
+  -- `<string>…</string>` (k+17 bytes) or an error before anything more is written
+  | .xml c k ok =>
+    let s := writeCT s ctXML
+    let s := writeHeader s c
+    let (s, err) := writes s (if ok then [xmlHeaderLen, k + 17] else [xmlHeaderLen])
+    (s, ⟨0, err || !ok⟩)
+  -- Render: no renderer / renderer error → nothing touched; else HTMLBlob(code, rendered bytes)
+  | .render c n ok =>
+    if ok then
+      let s := writeCT s ctHTML
+      let s := writeHeader s c
+      let (s, _, err) := write s n
+      (s, ⟨0, err⟩)
+    else (s, ⟨0, true⟩)
+  -- contentDisposition sets the header FIRST (also when the file is missing); fsFile: not
+  -- found → ErrNotFound; else http.ServeContent: Content-Type if unset, WriteHeader(200),
+  -- io.CopyN through Response.Write (one write, none for an empty file), errors swallowed
+  | .file found n disp ct =>
+    let s := if disp = 0 then s else { s with disp := disp }
+    if found then
+      let s := writeCT s ct
+      let s := writeHeader s 200
+      let (s, _) := writes s ([n].filter (· ≠ 0))
+      (s, {})
+    else (s, ⟨0, true⟩)
+  -- Hijack goes to the underlying writer (through http.ResponseController); nothing of the
+  -- bookkeeping is touched; the recording writer never hands out a connection
+  | .hijack => (s, ⟨0, true⟩)
 
 /-- the state after a whole program -/
 def run (s : St) (prog : List Op) : St := prog.foldl (fun s o => (step s o).1) s
@@ -254,6 +320,31 @@ def runSnaps : St → List Op → St × List Snap
     let (sEnd, l) := runSnaps s os
     (sEnd, snap s r :: l)
 
+/-! ## sequences of requests on one recycled context -/
+
+/-- `Context.Reset` / the pool: `response.reset(w)` written out field by field, on a fresh
+    writer (capacity `cap`, flusher or not) with a fresh header map and a fresh recording -/
+def reset (s : St) (cap : Nat) (fl : Bool) : St :=
+  { s with
+    before := []            -- r.beforeFuncs = nil
+    after := []             -- r.afterFuncs = nil
+    raw := { cap := cap, canFlush := fl }   -- r.Writer = w
+    size := 0               -- r.Size = 0
+    status := 200           -- r.Status = http.StatusOK
+    committed := false      -- r.Committed = false
+    ct := 0, loc := false, disp := 0        -- w.Header() is the new writer's empty map
+    trace := [] }           -- the recording starts again
+
+/-- states at the end of each request: run, reset, run, … -/
+def runSeq (cap : Nat) (fl : Bool) : St → List (List Op) → List St
+  | _, [] => []
+  | s, p :: ps => let s' := run s p; s' :: runSeq cap fl (reset s' cap fl) ps
+
+/-- the same with the per-step observations (what the driver prints) -/
+def runSeqObs (cap : Nat) (fl : Bool) : St → List (List Op) → List (St × List Snap)
+  | _, [] => []
+  | s, p :: ps => let r := runSnaps s p; r :: runSeqObs cap fl (reset r.1 cap fl) ps
+
 /-! ## wire -/
 open Wire
 
@@ -276,6 +367,11 @@ def pOp : P Op := do
   | 14 => pure .flushFE
   | 15 => pure .unwrap
   | 16 => do let ch ← list nat; let e ← bool; pure (.copy ch e)
+  | 17 => do let c ← nat; let cb ← nat; let k ← nat; let ok ← bool; pure (.jsonp c cb k ok)
+  | 18 => do let c ← nat; let k ← nat; let ok ← bool; pure (.xml c k ok)
+  | 19 => do let c ← nat; let n ← nat; let ok ← bool; pure (.render c n ok)
+  | 20 => do let f ← bool; let n ← nat; let d ← nat; let ct ← nat; pure (.file f n d ct)
+  | 21 => pure .hijack
   | _ => failure
 
 def encEv : Ev → List String
@@ -293,14 +389,17 @@ def encSnap (x : Snap) : List String :=
   [encBool x.committed, toString x.status, toString x.size, toString x.ncalls, toString x.sent,
    toString x.body, toString x.flushes, toString x.warns, toString x.ret.n, encBool x.ret.err]
 
-/-- line: `status0 cap nops op*` →
-    `nsteps (committed status size ncalls sent body flushes warns ret err)* sentCt sentLoc ntrace (code arg)*` -/
+/-- what is printed for one request -/
+def encReq (x : St × List Snap) : List String :=
+  encList encSnap x.2 ++ [toString x.1.raw.sentCt, encBool x.1.raw.sentLoc, toString x.1.raw.sentDisp]
+    ++ encList encEv x.1.trace
+
+/-- line: `status0 cap canFlush nprog (nops op*)*` → `nprog` then per request
+    `nsteps (committed status size ncalls sent body flushes warns ret err)* sentCt sentLoc sentDisp ntrace (code arg)*` -/
 def runLine (line : String) : String :=
-  match parseLine (do let p ← nat; let cap ← nat; let ops ← list pOp; pure (p, cap, ops)) line with
+  match parseLine (do let p ← nat; let cap ← nat; let fl ← bool; let progs ← list (list pOp);
+                      pure (p, cap, fl, progs)) line with
   | none => "bad-op"
-  | some (p, cap, ops) =>
-    let (s, snaps) := runSnaps (init p cap) ops
-    render (encList encSnap snaps ++ [toString s.raw.sentCt, encBool s.raw.sentLoc]
-            ++ encList encEv s.trace)
+  | some (p, cap, fl, progs) => render (encList encReq (runSeqObs cap fl (init p cap fl) progs))
 
 end C06
